@@ -16,6 +16,7 @@ from ..exceptions import (
     DuplicateNameError,
 )
 from ..functions import builtins as _builtins
+from .. import _verif
 
 
 class VectorContainer:
@@ -949,3 +950,7 @@ class VectorContainer:
 
     def exec(self, expression: str) -> None:
         raise NotImplementedError('`exec()` method not implemented yet')
+
+
+if _verif.ON:
+    _verif.hook_container(VectorContainer)
